@@ -80,14 +80,19 @@ def ele_faults(seg, e, sub_of=None):
                 out.append(('too-short', '1' * (mn - 1), '4', False))
             out.append(('wrong-class', ('A' * mx)[:max(mn, 1)], '6', False))
         elif dt == 'DT':
-            for L, v in ((8, '20041301'), (6, '041301')):
+            for L, v, v2 in ((8, '20041301', '20040230'), (6, '041301', '040230')):
                 if mn <= L <= mx:
-                    out.append(('impossible-date', v, '8', False))
+                    out.append(('impossible-date', v, '8', False))           # month out of range
+                    out.append(('impossible-date-day', v2, '8', False))      # day the month does not have
                     break
         elif dt == 'TM':
             for L in (4, 6, 8):
                 if mn <= L <= mx:
-                    out.append(('impossible-time', ('2561' + '0000')[:L], '9', False))
+                    # each field out of range on its own: the others are valid
+                    out.append(('impossible-time', ('2500' + '0000')[:L], '9', False))
+                    out.append(('impossible-time-minute', ('1260' + '0000')[:L], '9', False))
+                    if L >= 6:
+                        out.append(('impossible-time-second', ('120060' + '00')[:L], '9', False))
                     break
     if dtx and not coded:
         out.append(('impossible-date', None, '8', False))      # value chosen from the carrier's qualifier
@@ -596,7 +601,7 @@ def run(R):
             shards.append((e, ch))
     R.pmap(work, shards)
     R.bounds = {'maps': len(ents), 'injections': total,
-                'catalogue': ['too-long', 'too-short', 'wrong-class', 'impossible-date', 'impossible-time', 'outside-code-list', 'missing-required',
+                'catalogue': ['too-long', 'too-short', 'wrong-class', 'impossible-date (month)', 'impossible-date-day', 'impossible-time (hour)', 'impossible-time-minute', 'impossible-time-second', 'outside-code-list', 'missing-required',
                               'not-used-filled', 'too-many-elements', 'syntax:<note>', 'unknown-id', 'missing-required-segment', 'beyond-max-use',
                               'not-used-segment', 'beyond-repeat (loops)'],
                 'targets': 'every node x every applicable kind' if R.thorough else 'one node per definition signature per map x every applicable kind'}
